@@ -171,6 +171,20 @@ def _summ(result, snap: dict) -> dict:
 NONE_CELL = {"none": True, "tmo": False, "exc": False, "viol": []}
 
 
+def _fingerprint(mutations) -> str:
+    import ast  # noqa: PLC0415
+
+    out = []
+    for mu in mutations or []:
+        try:
+            out.append((getattr(mu.operator, "__name__", str(mu.operator)), mu.visitor_name,
+                        getattr(mu.node, "lineno", 0), getattr(mu.node, "col_offset", 0),
+                        ast.dump(mu.replacement_node) if isinstance(mu.replacement_node, ast.AST) else ""))
+        except Exception as ex:  # noqa: BLE001
+            out.append(("?", type(ex).__name__))
+    return json.dumps(out)
+
+
 class Recorder:
     """Wraps the boundary calls of one generator instance; records what passed through."""
 
@@ -181,6 +195,7 @@ class Recorder:
         self.cols: list[dict] = []
         self.sel: list[tuple[dict, set]] = []
         self.stats: dict[str, object] = {}
+        self.fps: list[str] = []  # what the controller yielded, in order
 
     def wrap_exec(self):
         orig = type(self.gen)._execute_test_case_on_mutant.__get__(self.gen)  # noqa: SLF001
@@ -202,9 +217,22 @@ class Recorder:
             return relay()
 
         self.gen._execute_test_case_on_mutant = wrapper  # noqa: SLF001
+        ctrl = self.gen._mutation_controller  # noqa: SLF001
+        orig_create = type(ctrl).create_mutants.__get__(ctrl)
+
+        def create_mutants():
+            for module, mutations in orig_create():
+                rec.fps.append(_fingerprint(mutations))
+                yield module, mutations
+
+        try:
+            ctrl.create_mutants = create_mutants
+        except AttributeError:
+            pass
 
     def unwrap_exec(self):
         self.gen.__dict__.pop("_execute_test_case_on_mutant", None)
+        getattr(self.gen._mutation_controller, "__dict__", {}).pop("create_mutants", None)  # noqa: SLF001
 
     def columns(self, created: int) -> tuple[list[str], list[list[dict]]]:
         """col[m] and out[t][m] for m = 1..max(created, number of calls)."""
@@ -246,6 +274,9 @@ def observe_handle(gen, test_cases, call, rerun: bool = False) -> list[dict]:
         return orig_tov(variable, value)
 
     stat.track_output_variable = tov
+    from pynguin.utils import randomness  # noqa: PLC0415
+
+    rng_before = randomness.RNG.getstate()
     crashed = ""
     try:
         call()
@@ -288,6 +319,9 @@ def observe_handle(gen, test_cases, call, rerun: bool = False) -> list[dict]:
         rec2 = Recorder(gen, test_cases)
         rec2.wrap_exec()
         err2 = ""
+        # a RANDOM higher-order strategy draws from the global generator: replay the same draws
+        rng_after = randomness.RNG.getstate()
+        randomness.RNG.setstate(rng_before)
         try:
             for res in gen._execute_test_case_on_mutants(test_cases, created):  # noqa: SLF001
                 if res is None:
@@ -298,7 +332,16 @@ def observe_handle(gen, test_cases, call, rerun: bool = False) -> list[dict]:
             err2 = f"{type(ex).__name__}: {ex}"
         finally:
             rec2.unwrap_exec()
+            randomness.RNG.setstate(rng_after)
         col2, out2 = rec2.columns(created)
+        # a mutant of the second pass that is not the mutant of the first pass is undecided
+        different = 0
+        for m in range(len(col2)):
+            f1 = rec.fps[m] if m < len(rec.fps) else None
+            f2 = rec2.fps[m] if m < len(rec2.fps) else None
+            if col2[m] == "ok" and f1 != f2:
+                col2[m] = "unchecked"
+                different += 1
         # number the assertions that are left by their ORIGINAL flat numbers
         for t in range(len(test_cases)):
             left = rem[t]
@@ -308,7 +351,7 @@ def observe_handle(gen, test_cases, call, rerun: bool = False) -> list[dict]:
         events.append({"ev": "Rerun", "nA": ev["nA"], "nM": ev["nM"], "col": col, "out": out, "rem": rem,
                        "col2": col2 + ["unchecked"] * (len(col) - len(col2)),
                        "out2": [row + [dict(NONE_CELL)] * (len(col) - len(row)) for row in out2],
-                       "crashed": bool(err2), "err": err2, "kinds": ev["kinds"]})
+                       "crashed": bool(err2), "err": err2, "kinds": ev["kinds"], "different_mutants": different})
     return events
 
 
@@ -484,10 +527,18 @@ def replay_wide(beh: dict) -> dict:
 
 def normalise(beh) -> dict:
     """TLC output (compact map / record with __set__ wrappers) -> plain behaviour dict."""
-    if isinstance(beh, list):
+    if isinstance(beh, list) and len(beh) == 4 and all(isinstance(x, int) for x in beh):
+        return {"mode": "tuple", "nA": [], "lay": [], "nM": 0, "kind": [], "tmoAt": [], "budget": -1, "viol": [],
+                "exc": [], "minimize": True, "sub": False, "q": list(beh)}
+    if isinstance(beh, list) and len(beh) == 3:
         n, m, viol = beh
         return {"mode": "map", "nA": [n], "lay": [0], "nM": m, "kind": ["ok"] * m, "tmoAt": [1] * m, "budget": -1,
                 "viol": [[sorted(v) for v in viol]], "exc": [[]], "minimize": True, "sub": False, "q": [0, 0, 0, 0]}
+    if isinstance(beh, list):
+        n, m, viol, kind, exc, budget, minimize = beh
+        return {"mode": "wide", "nA": [n], "lay": [n + m], "nM": m, "kind": list(kind), "tmoAt": [1] * m,
+                "budget": budget, "viol": [[sorted(v) for v in viol]], "exc": [sorted(exc)], "minimize": bool(minimize),
+                "sub": False, "q": [0, 0, 0, 0]}
 
     def plain(x):
         if isinstance(x, dict) and "__set__" in x:
@@ -505,6 +556,9 @@ def normalise(beh) -> dict:
 # P1: end-to-end runs with harness.adapters.e2e_kills_runner
 # --------------------------------------------------------------------------------------
 CACHE = ROOT / ".cache" / "e2e_kills"
+CORPUS_C21 = ROOT / "harness" / "sut" / "corpus_c21"
+# modules whose state leaks between executions of one process: only a fresh process is a fair re-execution
+LEAKY = {"c21_leaky"}
 HOM = [("FIRST_TO_LAST", 2), ("BETWEEN_OPERATORS", 2), ("RANDOM", 2), ("EACH_CHOICE", 2), ("FIRST_TO_LAST", 3)]
 
 
@@ -512,9 +566,12 @@ def e2e_configs(quick: bool) -> list[dict]:
     from harness.adapters import e2e  # noqa: PLC0415
 
     def cfg(mod, seed, alg, extra, assertions="MUTATION_ANALYSIS", it=4):
-        return {"module": mod, "seed": seed, "algorithm": alg, "iterations": it, "assertions": assertions,
-                "metrics": "BRANCH", "population": 5, "min_strategy": "CASE", "min_direction": "BACKWARD",
-                "extra": extra}
+        c = {"module": mod, "seed": seed, "algorithm": alg, "iterations": it, "assertions": assertions,
+             "metrics": "BRANCH", "population": 5, "min_strategy": "CASE", "min_direction": "BACKWARD",
+             "extra": extra}
+        if mod in LEAKY:
+            c["src_dir"] = str(CORPUS_C21)
+        return c
 
     # c_numeric is only used with SIMPLE assertions: mutants of `while b:` loop forever and the abandoned
     # executor threads keep the interpreter busy for many minutes (in-process execution cannot kill them)
@@ -522,9 +579,12 @@ def e2e_configs(quick: bool) -> list[dict]:
            cfg("c_state", 5, "WHOLE_SUITE", []),
            cfg("c_string", 7, "MIO", []),
            cfg("c_container", 4, "DYNAMOSA", ["--assertion_minimization", "False"]),
-           cfg("c_numeric", 9, "DYNAMOSA", [], assertions="SIMPLE")]
+           cfg("c21_leaky", 9, "DYNAMOSA", [], assertions="SIMPLE")]
     if quick:
         return out
+    out.append(cfg("c_numeric", 9, "DYNAMOSA", [], assertions="SIMPLE"))
+    out.append(cfg("c21_leaky", 13, "MIO", []))
+    out.append(cfg("c21_leaky", 17, "WHOLE_SUITE", [], assertions="SIMPLE", it=6))
     out.append(cfg("c_float", 6, "MIO", ["--mutation_strategy", "FIRST_TO_LAST", "--mutation_order", "2"]))
     algs = ["DYNAMOSA", "MIO", "WHOLE_SUITE"]
     mods = [m for m in e2e.MODULES if m != "c_numeric"]
@@ -547,7 +607,7 @@ def tree_hash() -> str:
     from harness.adapters import e2e  # noqa: PLC0415
 
     h = hashlib.sha1(e2e.tree_hash().encode())
-    for p in (Path(__file__), Path(__file__).with_name("e2e_kills_runner.py")):
+    for p in (Path(__file__), Path(__file__).with_name("e2e_kills_runner.py"), *sorted(CORPUS_C21.glob("*.py"))):
         h.update(p.read_bytes())
     return h.hexdigest()[:16]
 
